@@ -194,7 +194,16 @@ def make_specs(run):
     specs = []
     if run.replay:
         rep = json.load(open(run.replay))
-        return [rep["case"]["spec"]]
+        case = rep["case"]
+        if "spec" in case:
+            return [case["spec"]]
+        # a broken-tie replay lists the first disagreeing cases
+        out = []
+        for c in case.get("first", []):
+            sp = c.get("case", {}).get("spec")
+            if sp is not None and sp not in out:
+                out.append(sp)
+        return out
     corpus = os.path.join(vlib.VERIF, "corpus", "C15.json")
     if os.path.exists(corpus):
         specs += json.load(open(corpus))
@@ -258,8 +267,9 @@ def main():
     futs = [ex.submit(L.fit_case, s) for s in specs]
     run.check_proofs("Properties/C15.v", ["Proofs/RecoveryProofs.v"])
     run.log("theorems re-checked: %s" % run.proof_ok)
-    run.ensure_models(["Model/RecoveryRun.v", "Model/CasesLib.v"])
-    run.log("models built")
+    # Properties/C15.v imports Model/RecoveryRun.v and Model/CasesLib.v, so the build above has made them
+    if not all(os.path.exists(os.path.join(vlib.COQ, f)) for f in ("Model/RecoveryRun.vo", "Model/CasesLib.vo")):
+        run.ensure_models(["Model/RecoveryRun.v", "Model/CasesLib.v"])
     obs = [f.result() for f in futs]
     ex.shutdown()
     run.log("fits done")
